@@ -2,8 +2,6 @@
 from __future__ import annotations
 
 import itertools
-from collections import Counter
-
 from hypothesis import strategies as st
 
 from cpverif import conform as C
@@ -359,11 +357,11 @@ def check_section(ctx: Ctx, case) -> None:
     got_notes = [[e.tick, list(e.note.value)] for e in tr.note_events]
     if got_notes != want_notes:
         ctx.fail("section-notes", f"note events {got_notes[:8]} != members {want_notes[:8]}", rc)
-    bad = Counter(x[0] for x in lines if x[1] == "X")
-    rep = Counter(C.unparsable_texts(recs))
-    if bad != rep:
-        ctx.fail("section-warnings", f"non-members {dict(bad)} but warnings {dict(rep)}", rc)
-    nx = sum(bad.values())
+    bad = [x[0] for x in lines if x[1] == "X"]
+    why = C.reports_match(C.records_of(recs, "chartparse.track"), bad)
+    if why:
+        ctx.fail("section-warnings", f"non-members {bad} are not reported exactly once each: {why}", rc)
+    nx = len(bad)
     ctx.note(rc["lines"], nontrivial=nx >= 1 and len(lines) - nx >= 2,
              classes=[f"nonmembers_{min(nx, 4)}"], sample={"lines": rc["lines"][:12]})
 
